@@ -438,6 +438,9 @@ def psw : P String := do
   let mut v : Verdict := { tag := "psw" }
   let mut ill := false
   let mut pops := 0
+  let mut lastQ : Rows := q
+  let mut lastLen := 0
+  let mut stepped : List (Nat × Nat) := []
   for k in [0:nev] do
     let kind ← P.nat
     let (s, a) ← if kind == 1 then (do let s ← P.nat; let a ← P.nat; pure (s, a)) else pure (0, 0)
@@ -445,6 +448,8 @@ def psw : P String := do
     let outV ← P.rep P.q S
     let qlen ← P.nat
     if kind == 1 && !(s < S && a < A) then P.fail
+    lastQ := outQ; lastLen := qlen
+    if kind == 1 then stepped := (s, a) :: stepped
     if ill then continue
     let candsOf (queue : List QE) : List PS :=
       let base : PS := { q := ofRows q, v := ofVec vv, queue := queue, done := [] }
@@ -481,6 +486,15 @@ def psw : P String := do
   if ill then v := { v with tag := v.tag ++ " prefix-only" }
   if nev == 0 then v := { v with tag := v.tag ++ " trivial" }
   if pops > 0 then v := { v with tag := v.tag ++ " pops" }
+  -- (L3) theorem ps_residual_bound on the implementation's own final table: every event is exactly one backup, so after
+  -- `nev` events with an empty queue and every pair stepped explicitly the Bellman residual is at most γ·θ·nev
+  let covered := (List.range S).all (fun s => (List.range A).all (fun a => stepped.contains (s, a)))
+  if lastLen == 0 && covered && decide (0 ≤ θ) && decide (0 ≤ γ) then
+    let res := bellmanResidual m0 (ofRows lastQ)
+    let bound := γ * θ * (nev : Rat)
+    let slack := tolRun * (1 + maxAbsRows lastQ)
+    v := v.failIf (decide (res > bound + slack)) s!"{if kind == "generic" then "PrioritizedSweeping.generic" else "PrioritizedSweeping"} residual_exceeds_theta_bound residual={ratStr res} bound={ratStr bound} events={nev}"
+    v := { v with tag := v.tag ++ (if decide (θ > 1 / 1000000) then " theta-bound" else " drained") }
   return v.render
 
 /-! ### Dyna2 (model: AITB.Model.Dyna2) -/
